@@ -1,25 +1,128 @@
-"""C05 cases: shifts and rotations."""
+"""C05 cases: shifts and rotations.
+
+Request forms (see harness/src/bin/c05.rs, lean/Bnum/Drive/C05.lean):
+  `op cfg a k`            the twelve methods of OPS
+  `op cfg dbg|rel a k`    MODE_OPS: inherent `shl`/`shr` and the operators `<<` `>>` `<<=` `>>=` (u32 amount)
+  `op cfg a k`, k < BITS  UNCHECKED: `unsafe` unchecked_shl / unchecked_shr (never requested out of range)
+
+Input classes (all general, none tied to a known defect):
+  * amounts: the digit-offset / bit-offset structure of the code (multiples of the digit width +-1,
+    digit offset N-1 with bit offset 0 and w-1, W-w, W-1), amounts in [BITS, 2*BITS), multiples of BITS
+    +-1, powers of two +-1 up to 2^32, 2^32-1 (`_amount`);
+  * values: the classes of gen/common.py plus negative values with a partially shifted top digit
+    (sign fill), a digit ramp (every digit different, so a misplaced digit shows) and sparse
+    single-bit-per-digit patterns (`_value`);
+  * complete sweep of all amounts 0..2*BITS+1 on one instantiation per digit type (and two
+    power-of-two widths), every operation (`_sweep`);
+  * the edge-digit grid for every operation (`_grid`);
+  * the widest instantiation of every digit type (8192 bits), every operation, amounts with large
+    digit offsets (`_huge`).
+"""
 from .common import *
 
 OPS = ["overflowing_shl", "overflowing_shr", "checked_shl", "checked_shr", "wrapping_shl", "wrapping_shr",
        "unbounded_shl", "unbounded_shr", "rotate_left", "rotate_right", "strict_shl", "strict_shr"]
+MODE_OPS = ["shl", "shr", "shl_op", "shr_op", "shl_assign", "shr_assign"]
+UNCHECKED = ["unchecked_shl", "unchecked_shr"]
+ALL_OPS = OPS + MODE_OPS + UNCHECKED
+U32 = 1 << 32
+
+
+def _lines(op, s, cfg, a, k):
+    """request line(s) of one operation (both build modes for the mode-dependent ones; the unsafe
+    unchecked shifts only where they are defined)"""
+    if op in MODE_OPS:
+        return [f"{op} {s}{cfg} {mode} {hx(a)} {k}" for mode in ("dbg", "rel")]
+    if op in UNCHECKED:
+        w, n = wn(cfg)
+        return [f"{op} {s}{cfg} {hx(a)} {k}"] if k < w * n else []
+    return [f"{op} {s}{cfg} {hx(a)} {k}"]
+
+
+def _amount(rng, w, n):
+    """(tag, amount): structured u32 shift / rotate amounts"""
+    t, k = _amount0(rng, w, n)
+    return t, min(U32 - 1, max(0, k))
+
+
+def _amount0(rng, w, n):
+    W = w * n
+    c = rng.randrange(12)
+    if c == 0:
+        return "amt-boundary", rng.choice([0, 1, w - 1, w, w + 1, W - w - 1, W - w, W - w + 1, W - 2, W - 1])
+    if c == 1:
+        # bit offset 0 / 1 / w-1 at a random digit offset (digit offset N-1 included)
+        j = rng.randrange(n)
+        return "amt-digit-aligned", min(W - 1, max(0, w * j + rng.choice([0, 0, 1, w - 1, -1])))
+    if c == 2:
+        # digit offset N-1, any bit offset: only the top digit of a left shift / the lowest of a right shift survives
+        return "amt-last-digit", W - w + rng.randrange(w)
+    if c == 3:
+        return "amt-ge-bits", rng.choice([W, W + 1, W + w - 1, W + w, W + w + 1, 2 * W - w, 2 * W - 1, 2 * W, 2 * W + 1,
+                                          W + rng.randrange(W), W + w * rng.randrange(n)])
+    if c == 4:
+        # multiples of BITS +- small (rotation by 0 / 1 / BITS-1 after reduction)
+        q = rng.randrange(1, U32 // W)
+        return "amt-mult-bits", min(U32 - 1, max(0, q * W + rng.choice([-w, -1, 0, 0, 1, w])))
+    if c == 5:
+        j = rng.randrange(33)
+        return "amt-pow2", min(U32 - 1, max(0, (1 << j) + rng.choice([-1, 0, 1])))
+    if c == 6:
+        return "amt-u32", rng.choice([U32 - 1, U32 - 2, 1 << 31, (1 << 31) - 1, rng.randrange(U32), rng.randrange(U32)])
+    if c == 7:
+        return "amt-lt-2bits", rng.randrange(2 * W + 2)
+    return "amt-inrange", rng.randrange(W)
+
+
+def _value(rng, w, n):
+    """(tag, pattern): gen/common.py classes plus shift-specific ones"""
+    W = w * n
+    B = 1 << w
+    c = rng.randrange(10)
+    if c == 0:
+        # negative, top digit with few / many sign bits, low part zero / random / all ones:
+        # the sign fill of the partially shifted top digit
+        top = rng.choice([B // 2, B // 2 + 1, B - 1, B - 2, B // 2 + B // 4, rng.randrange(B // 2, B)])
+        low = rng.choice([0, 1, (1 << (W - w)) - 1, rng.randrange(1 << (W - w)) if n > 1 else 0])
+        return "sign-fill", (top << (W - w)) | low
+    if c == 1:
+        # every digit different (and no digit 0 or B-1): a digit copied from the wrong index is visible
+        return "digit-ramp", sum((((i * 37 + 11) % (B - 2)) + 1) << (w * i) for i in range(n))
+    if c == 2:
+        # one bit per digit at the same position (top, bottom or random): bits crossing digit boundaries
+        b = rng.choice([0, w - 1, rng.randrange(w)])
+        v = sum(1 << (w * i + b) for i in range(n))
+        return "bit-per-digit", v if rng.random() < 0.7 else pat(~v, W)
+    if c == 3:
+        # positive with the bit below the sign set (left shift by one makes it negative), or top digit only
+        return "top-digit", rng.choice([(1 << (W - 2)), (1 << (W - 2)) | 1, (B // 2 - 1) << (W - w), rng.randrange(1, B) << (W - w)])
+    return value(rng, w, n)
 
 
 def _gen_main(rng, tier):
     reps = 200 if tier == "thorough" else 100
     for cfg in cfgs(tier):
         w, n = wn(cfg)
+        W = w * n
         for _ in range(reps if n <= 40 else 10):
             for s in "ui":
                 for op in OPS:
-                    t, a = value(rng, w, n)
-                    k = shift_amount(rng, w, n)
-                    yield f"{op} {s}{cfg} {hx(a)} {k}", t
-                t, a = value(rng, w, n)
-                k = shift_amount(rng, w, n)
-                for op in ("shl", "shr"):
-                    for mode in ("dbg", "rel"):
-                        yield f"{op} {s}{cfg} {mode} {hx(a)} {k}", t
+                    t, a = _value(rng, w, n)
+                    ta, k = _amount(rng, w, n) if rng.random() < 0.6 else ("amt-common", shift_amount(rng, w, n))
+                    yield f"{op} {s}{cfg} {hx(a)} {k}", t + "/" + ta
+                # `<<` / `>>`: inherent and operator forms on the same operands, both build modes
+                t, a = _value(rng, w, n)
+                ta, k = _amount(rng, w, n) if rng.random() < 0.6 else ("amt-common", shift_amount(rng, w, n))
+                for op in MODE_OPS:
+                    for l in _lines(op, s, cfg, a, k):
+                        yield l, t + "/" + ta
+                # unsafe unchecked shifts: in-range amounts only
+                for op in UNCHECKED:
+                    t, a = _value(rng, w, n)
+                    ta, k = _amount(rng, w, n)
+                    if k >= W:
+                        ta, k = "amt-inrange", rng.choice([k % W, W - 1, W - w, rng.randrange(W)])
+                    yield f"{op} {s}{cfg} {hx(a)} {k}", t + "/" + ta
     if tier == "thorough":
         for cfg in ["8x1", "8x3", "16x1"]:
             w, n = wn(cfg)
@@ -32,18 +135,105 @@ def _gen_main(rng, tier):
                             yield f"{op} {s}{cfg} {hx(a)} {k}", "exhaustive-amounts"
 
 
-def gen(rng, tier):
-    yield from _gen_main(rng, tier)
-    yield from _grid(rng, tier)
+# one instantiation per digit type at a width that is not a power of two, and two power-of-two widths
+SWEEP_CFGS = ["8x3", "16x3", "32x3", "64x3", "8x2", "64x2"]
+SWEEP_CFGS_THOROUGH = SWEEP_CFGS + ["8x5", "8x7", "16x5", "32x2", "32x6", "64x1", "64x5", "8x17"]
+
+
+def _sweep(rng, tier):
+    """every amount 0..2*BITS+1, every operation (all of ALL_OPS up to BITS+1, the twelve methods above)"""
+    nvals = 4 if tier == "thorough" else 1
+    for cfg in (SWEEP_CFGS_THOROUGH if tier == "thorough" else SWEEP_CFGS):
+        w, n = wn(cfg)
+        W = w * n
+        for s in "ui":
+            for k in range(0, 2 * W + 2):
+                for _ in range(nvals):
+                    # one fresh value per amount; half of them from the shift-specific classes
+                    t, a = _value(rng, w, n) if rng.random() < 0.7 else ("random", rng.randrange(1 << W))
+                    for op in (ALL_OPS if k <= W + 1 else OPS):
+                        for l in _lines(op, s, cfg, a, k):
+                            yield l, "amount-sweep"
 
 
 def _grid(rng, tier):
+    first = ("overflowing_shl", "overflowing_shr", "rotate_left", "rotate_right", "unbounded_shr")
+    rest = [op for op in ALL_OPS if op not in first]
     for cfg in GRID_CFGS:
         w, n = wn(cfg)
         W = w * n
-        amounts = sorted(set([0, 1, w - 1, w, w + 1, W - 1, W, W + 1, 2 * W - 1] + [k for k in range(0, W, max(1, W // 6))]))
+        amounts = sorted(set([0, 1, w - 1, w, w + 1, W - w, W - 1, W, W + 1, 2 * W - 1] + [k for k in range(0, W, max(1, W // 6))]))
+        grid = edge_grid(w, n)
         for s in "ui":
-            for op in ("overflowing_shl", "overflowing_shr", "rotate_left", "rotate_right", "unbounded_shr"):
-                for a in edge_grid(w, n):
-                    for k in (amounts if len(edge_grid(w, n)) <= 30 else rng.sample(amounts, 3)):
-                        yield f"{op} {s}{cfg} {hx(a)} {k}", "edge-grid"
+            for a in grid:
+                for k in (amounts if len(grid) <= 30 else rng.sample(amounts, 4)):
+                    for op in list(first) + rng.sample(rest, 3):
+                        for l in _lines(op, s, cfg, a, k):
+                            yield l, "edge-grid"
+
+
+SHL_FAMILY = ["overflowing_shl", "checked_shl", "wrapping_shl", "unbounded_shl", "strict_shl", "unchecked_shl",
+              "shl", "shl_op", "shl_assign"]
+SHR_FAMILY = ["overflowing_shr", "checked_shr", "wrapping_shr", "unbounded_shr", "strict_shr", "unchecked_shr",
+              "shr", "shr_op", "shr_assign"]
+
+
+def _digit_offsets(rng, tier):
+    """every configuration x every digit offset (a sample of 17 of them above 17 digits) x bit offsets
+    {0, 1, w-1, random}: the (digit type, digit count, digit offset, bit offset) combinations that random
+    amounts hit with probability ~1/(n*w).  Two operations of each shift family and both rotations."""
+    for cfg in cfgs(tier):
+        w, n = wn(cfg)
+        js = list(range(n)) if n <= 17 else sorted(set([0, 1, 2, n // 2, n - 3, n - 2, n - 1] + rng.sample(range(n), 10)))
+        for j in js:
+            for b in [0, 1, w - 1, rng.randrange(w)]:
+                k = w * j + b
+                for s in "ui":
+                    t, a = _value(rng, w, n) if rng.random() < 0.7 else ("random", rng.randrange(1 << (w * n)))
+                    for op in rng.sample(SHL_FAMILY, 2) + rng.sample(SHR_FAMILY, 2) + ["rotate_left", "rotate_right"]:
+                        for l in _lines(op, s, cfg, a, k):
+                            yield l, "digit-offset-sweep"
+
+
+def _huge(rng, tier):
+    """8192 bits, every digit type: few cases (the Lean side takes ~10 ms per request here), every
+    operation, amounts whose digit offset is large (> 255 for the u8/u16-digit types)"""
+    draws = 8 if tier == "thorough" else 3
+    for cfg in HUGE_CFGS:
+        w, n = wn(cfg)
+        W = w * n
+        M = 1 << W
+        B = 1 << w
+        ramp = sum((((i * 37 + 11) % (B - 2)) + 1) << (w * i) for i in range(n))
+        vals = huge_values(rng, cfg) + [ramp, pat(~ramp, W), ((B - 1) << (W - w)) | rng.randrange(1 << (W - w)), M - 2]
+
+        def amount():
+            c = rng.randrange(8)
+            if c == 0:
+                return rng.choice([0, 1, w - 1, w, W - w, W - w + 1, W - 1, W // 2, W // 2 - 1])
+            if c == 1:
+                return w * rng.randrange(n // 2, n) + rng.choice([0, 0, 1, w - 1])      # large digit offset
+            if c == 2:
+                return w * rng.randrange(n) + rng.randrange(w)
+            if c == 3:
+                return rng.choice([W, W + 1, 2 * W - 1, W + rng.randrange(W), U32 - 1, rng.randrange(U32),
+                                   W * rng.randrange(1, U32 // W) + rng.choice([-1, 0, 1])])
+            return _amount(rng, w, n)[1]
+
+        for s in "ui":
+            for op in ALL_OPS:
+                for _ in range(draws):
+                    a = rng.choice(vals)
+                    k = amount()
+                    if op in UNCHECKED and k >= W:
+                        k = k % W
+                    for l in _lines(op, s, cfg, a, k):
+                        yield l, "huge-8192"
+
+
+def gen(rng, tier):
+    yield from _gen_main(rng, tier)
+    yield from _grid(rng, tier)
+    yield from _sweep(rng, tier)
+    yield from _digit_offsets(rng, tier)
+    yield from _huge(rng, tier)
